@@ -464,6 +464,40 @@ def _cond_nodes_for(cfg, cmpn):
     return [x for x in U.nodes_containing(cfg, org) if x.kind == 'cond']
 
 
+
+def _holder_terms(P, ex, m, table):
+    """terms that denote the holder component (position 0) of an entry of the lock table inside method m"""
+    sn = m.self_name
+    out = []
+    for n in U.walk_no_nested(m.node):
+        # L = table.get(k[, None]) / L = table[k]  ->  L[0]
+        if isinstance(n, ast.Assign) and len(n.targets) == 1 and isinstance(n.targets[0], ast.Name):
+            v = n.value
+            if (isinstance(v, ast.Call) and isinstance(v.func, ast.Attribute) and v.func.attr == 'get' and P.self_attr(v.func.value, sn) == table) or \
+                    (isinstance(v, ast.Subscript) and P.self_attr(v.value, sn) == table):
+                out.append(ex.tb.term(U.parse_expr('%s[0]' % n.targets[0].id)))
+        # a, b = table[k]
+        if isinstance(n, ast.Assign) and isinstance(n.targets[0], ast.Tuple) and isinstance(n.value, ast.Subscript) and P.self_attr(n.value.value, sn) == table \
+                and n.targets[0].elts and isinstance(n.targets[0].elts[0], ast.Name):
+            out.append(ex.tb.term(n.targets[0].elts[0]))
+        # for k, (a, b) in [list(]table.items()[)]
+        if isinstance(n, ast.For) and isinstance(n.target, ast.Tuple) and len(n.target.elts) == 2 and isinstance(n.target.elts[1], ast.Tuple) and n.target.elts[1].elts \
+                and isinstance(n.target.elts[1].elts[0], ast.Name) and any(isinstance(c, ast.Call) and isinstance(c.func, ast.Attribute) and c.func.attr in ('items', 'iteritems')
+                                                                         and P.self_attr(c.func.value, sn) == table for c in ast.walk(n.iter)):
+            out.append(ex.tb.term(n.target.elts[1].elts[0]))
+        # table[k][0] used directly
+        if isinstance(n, ast.Subscript) and isinstance(n.slice, ast.Constant) and n.slice.value == 0 and isinstance(n.value, ast.Subscript) and P.self_attr(n.value.value, sn) == table:
+            out.append(ex.tb.term(n))
+    return out
+
+
+def _holder_is(P, ex, res, node_id, m, table, client):
+    cands = _holder_terms(P, ex, m, table)
+    ct = ex.tb.term(ast.Name(id=client, ctx=ast.Load()))
+    states = res.facts_at(node_id)
+    return bool(states) and any(all(oracle.entails(fs, ('eq', t, ct)) for fs in states) for t in cands)
+
+
 @rule('R-lock-guards', 'the lock table changes only under its guards: acquire overwrites when absent, expired or same '
                        'client; release deletes only the holder\'s entry; prolongate refreshes only the caller\'s and drops '
                        'only expired entries; isAcquired requires the holder and an unexpired stamp')
@@ -530,11 +564,7 @@ def r_lock_guards(ctx):
         if a.attr == table and a.kind == 'elem_del':
             n = U.node_containing(ex.cfg, a.node)
             inst = 'release deletes only the holder\'s entry'
-            ok = False
-            for fs in res.facts_at(n.id):
-                ok = any(l[0] == 'eq' and any(t.key == m.params[2] for t in (l[1], l[2])) and any(t.key.endswith('[0]') for t in (l[1], l[2])) for l in fs)
-                if not ok:
-                    break
+            ok = _holder_is(P, ex, res, n.id, m, table, m.params[2])
             ctx.tick()
             if ok:
                 ctx.ok(inst, m.loc(a.node), 'entry[0] == clientID entailed')
@@ -551,7 +581,7 @@ def r_lock_guards(ctx):
         ctx.tick()
         if a.kind == 'elem_write':
             inst = 'prolongate refreshes only the caller\'s locks'
-            ok = all(any(l[0] == 'eq' and any(t.key == m.params[1] for t in (l[1], l[2])) for l in fs) for fs in res.facts_at(n.id)) and bool(res.facts_at(n.id))
+            ok = _holder_is(P, ex, res, n.id, m, table, m.params[1])
             if ok:
                 ctx.ok(inst, m.loc(a.node), 'holder == clientID entailed')
             else:
@@ -571,7 +601,7 @@ def r_lock_guards(ctx):
     for n in ex.cfg.nodes:
         if n.kind == 'stmt' and isinstance(n.ast, ast.Return) and isinstance(n.ast.value, ast.Constant) and n.ast.value.value is True:
             inst = 'isAcquired is true only for the holder of an unexpired lock'
-            okh = all(any(l[0] == 'eq' and any(t.key == m.params[2] for t in (l[1], l[2])) and any(t.key.endswith('[0]') for t in (l[1], l[2])) for l in fs) for fs in res.facts_at(n.id))
+            okh = _holder_is(P, ex, res, n.id, m, table, m.params[2])
             okt = any(_dominated_by_expiry(ex.cfg, n.id, cmpn) for cmpn, op, flipped in _expiry_compares(P, m, unlock))
             ctx.tick()
             if okh and okt and res.facts_at(n.id):
